@@ -945,50 +945,37 @@ def shards_delta(shards, other_shards):
     """
     Yield shards1 with cviews that are the same as shards2 having canv = None.
     """
-    # pylint: disable=stop-iteration-return
-    other_shards_iter = iter(other_shards)
-    other_num_rows = other_cviews = None
-    done = other_done = 0
+    # a cview is unchanged only if other_shards holds the same view of the same canvas
+    # with its top-left corner on the same row and column
+    other_origins = dict(shards_cview_origins(other_shards))
+    origins = shards_cview_origins(shards)
     for num_rows, cviews in shards:
-        if other_num_rows is None:
-            other_num_rows, other_cviews = next(other_shards_iter)
-        while other_done < done:
-            other_done += other_num_rows
-            other_num_rows, other_cviews = next(other_shards_iter)
-        if other_done > done:
-            yield (num_rows, cviews)
-            done += num_rows
-            continue
-        # top-aligned shards, compare each cview
-        yield (num_rows, shard_cviews_delta(cviews, other_cviews))
-        other_done += other_num_rows
-        other_num_rows = None
-        done += num_rows
+        new_cviews = []
+        for cv in cviews:
+            origin, _cv = next(origins)
+            other_cv = other_origins.get(origin)
+            if other_cv is not None and cv[5] is other_cv[5] and cv[:5] == other_cv[:5]:
+                cv = cv[:5] + (None,) + cv[6:]  # noqa: PLW2901
+            new_cviews.append(cv)
+        yield (num_rows, new_cviews)
 
 
-def shard_cviews_delta(cviews, other_cviews):
-    # pylint: disable=stop-iteration-return
-    other_cviews_iter = iter(other_cviews)
-    other_cv = None
-    cols = other_cols = 0
-    for cv in cviews:
-        if other_cv is None:
-            other_cv = next(other_cviews_iter)
-        while other_cols < cols:
-            other_cols += other_cv[2]
-            other_cv = next(other_cviews_iter)
-        if other_cols > cols:
-            yield cv
-            cols += cv[2]
-            continue
-        # top-left-aligned cviews, compare them
-        if cv[5] is other_cv[5] and cv[:5] == other_cv[:5]:
-            yield cv[:5] + (None,) + cv[6:]
-        else:
-            yield cv
-        other_cols += other_cv[2]
-        other_cv = None
-        cols += cv[2]
+def shards_cview_origins(shards):
+    """
+    Yield ((row, col), cview) for every cview in shards, where (row, col) is
+    the position of the top-left corner of the cview within shards.
+    """
+    row = 0
+    shard_tail = []
+    for num_rows, cviews in shards:
+        sbody = shard_body(cviews, shard_tail, False)
+        col = 0
+        for done_rows, _content_iter, cv in sbody:
+            if not done_rows:
+                yield (row, col), cv
+            col += cv[2]
+        shard_tail = shard_body_tail(num_rows, sbody)
+        row += num_rows
 
 
 def shard_body(cviews, shard_tail, create_iter: bool = True, iter_default=None):
